@@ -24,6 +24,8 @@ from harness import geo_sym as GS
 
 PID = 'C04'
 GROUP_TIMEOUT_MS = 250
+MAX_FAILURES_PER_TASK = 6     # a task with this many counterexamples stops exploring further paths
+TASK_WALL_S = 1500
 
 _LD = None
 def _load():
@@ -120,6 +122,7 @@ def task_fromgeo(family, shape, atm, conv, order, angle, use_map, surf_cols=None
     ld = _load()
     M, T = ld.mulgrids, ld.t2grids
     failures, samples, distinct = [], [], set()
+    failed_labels = set()    # once an obligation kind has a counterexample in this task it is not re-proved
     perm_cs = GO.perm_cos_sin(angle)
     state = dict(reached=0)
     expect_oracle_error = (order == 'dmplex' and family == 'mix5')
@@ -127,6 +130,7 @@ def task_fromgeo(family, shape, atm, conv, order, angle, use_map, surf_cols=None
                use_map=use_map, rot=rot, translate=translate, mixmode=mixmode)
 
     def h(c):
+        if len(failures) >= MAX_FAILURES_PER_TASK: return 'not explored: the task already has counterexamples'
         ops = GS.SymOps()
         inp = make_inputs(c, family, shape, mixmode)
         mesh = GB.oracle_mesh(family, inp)
@@ -181,6 +185,8 @@ def task_fromgeo(family, shape, atm, conv, order, angle, use_map, surf_cols=None
             ex.block_cells()
         except ValueError as e:
             return 'oracle: %s' % e
+        rr, _m = c.reachable()           # non-vacuity: the whole path condition is satisfiable
+        if rr != 'sat': return 'unreachable path condition (%s)' % rr
         state['reached'] += 1
 
         pending = []
@@ -194,6 +200,7 @@ def task_fromgeo(family, shape, atm, conv, order, angle, use_map, surf_cols=None
 
         def prove_one(ob, where):
             r = c.prove(GS.formula(ob), ob[0], info=where)
+            if r != 'unsat': failed_labels.add(ob[0])
             if r == 'sat':
                 record(ob[0], '%s fails at %s' % (ob[0], where), c.failures[-1]['model'])
             return r
@@ -208,6 +215,9 @@ def task_fromgeo(family, shape, atm, conv, order, angle, use_map, surf_cols=None
             its parts."""
             groups, order_ = {}, []
             for ob, where in pending:
+                if ob[0] in failed_labels:
+                    c.stats['ob_skipped_after_failure'] = c.stats.get('ob_skipped_after_failure', 0) + 1
+                    continue
                 f = z3.simplify(GS.formula(ob))
                 if z3.is_true(f):
                     c.stats['obligations'] += 1; c.stats['ob_unsat'] += 1
@@ -223,7 +233,8 @@ def task_fromgeo(family, shape, atm, conv, order, angle, use_map, surf_cols=None
                     if r == 'unsat':
                         c.stats['obligations'] += len(fs); c.stats['ob_unsat'] += len(fs)
                         continue
-                for f, ob in fs: prove_one(ob, where)
+                for f, ob in fs:
+                    if ob[0] not in failed_labels: prove_one(ob, where)
 
         summary = GB.compare(ex, geo, grid, blockmap, S, P)
         discharge()
@@ -236,7 +247,7 @@ def task_fromgeo(family, shape, atm, conv, order, angle, use_map, surf_cols=None
                                     GS.zterm(ex.volume(*ex.block_cells()[-1])).sexpr()[:200])))
         return summary
 
-    res = sym.explore(h, GS.FastCtx(timeout_ms=30000), max_paths=20000, profile_repo=profile)
+    res = sym.explore(h, GS.FastCtx(timeout_ms=30000), max_paths=20000, wall_s=TASK_WALL_S, profile_repo=profile)
     if state['reached'] == 0 and not expect_oracle_error:
         res['exhausted'] = False          # vacuous: never reached the obligations
     name = '%s%s/atm%d/conv%d/%s/angle%g/%s%s%s%s%s%s' % (
@@ -273,20 +284,22 @@ def catalogue(tier):
     quick = (tier == 'quick')
     first = [True]
     # (1) every configuration of the quantifier's finite space (216) on RECT(2x1x2):
-    #     quick: surface of column 0 free; thorough: both surfaces free
+    #     quick: surface of column 0 free; thorough: both surfaces free for the 72 configurations
+    #     with permeability angle 0, surface of column 0 free for the other 144
     for atm, conv, order, angle, mp in itertools.product(ATMS, CONVS, ORDERS, ANGLES, MAPS):
         add(family='rect', shape=(2, 1, 2), atm=atm, conv=conv, order=order, angle=angle, use_map=mp,
-            surf_cols=[0] if quick else None, profile=first[0])
+            surf_cols=[0] if (quick or angle != 0.0) else None, profile=first[0])
         first[0] = False
     # (2) RECT(2x2x2): quick = three free surfaces (125 arrangements, the fourth column at the
-    #     default surface); thorough = all four free (625 arrangements) for each atmosphere type
+    #     default surface); thorough = all four free (625 arrangements) for atmosphere type 1 and
+    #     three free (125 arrangements) for types 0 and 2
     if quick:
         add_split(2, 3, 2, family='rect', shape=(2, 2, 2), atm=1, conv=0, order=None, angle=30.0, use_map=True,
                   surf_cols=[0, 1, 3])
     else:
-        for atm, conv, order, angle, mp in [(0, 1, 'dmplex', 0.0, False), (1, 0, None, 30.0, True),
-                                            (2, 3, 'layer_column', 90.0, True)]:
-            add_split(2, 4, 2, family='rect', shape=(2, 2, 2), atm=atm, conv=conv, order=order, angle=angle, use_map=mp)
+        add_split(2, 4, 2, family='rect', shape=(2, 2, 2), atm=1, conv=0, order=None, angle=30.0, use_map=True)
+        add_split(1, 3, 2, family='rect', shape=(2, 2, 2), atm=0, conv=1, order='dmplex', angle=0.0, use_map=False, surf_cols=[0, 1, 2])
+        add_split(1, 3, 2, family='rect', shape=(2, 2, 2), atm=2, conv=3, order='layer_column', angle=90.0, use_map=True, surf_cols=[1, 2, 3])
     # (3) small shapes with every surface free: rows in x and in y, a single column, a single layer
     for i, (shape, atm) in enumerate([((2, 1, 2), 0), ((2, 1, 2), 1), ((2, 1, 2), 2), ((1, 2, 2), 0), ((1, 2, 2), 1),
                                       ((1, 2, 2), 2), ((1, 1, 2), 0), ((2, 1, 1), 1), ((1, 1, 1), 2)]):
@@ -302,18 +315,17 @@ def catalogue(tier):
     if quick: return T
     # ---- thorough only
     # (6) RECT(3x2x3): pairs / a triple of free surfaces (7 classes each), the other columns at the default surface
-    for atm in ATMS:
-        for pair in ([0, 1], [1, 4], [0, 4], [2, 5]):
-            add(family='rect', shape=(3, 2, 3), atm=atm, conv=atm, order=ORDERS[atm], angle=ANGLES[atm], use_map=bool(atm % 2), surf_cols=pair)
+    for atm, pair in ((0, [0, 1]), (1, [1, 4]), (2, [0, 4]), (1, [2, 5])):
+        add_split(1, 2, 3, family='rect', shape=(3, 2, 3), atm=atm, conv=atm, order=ORDERS[atm], angle=ANGLES[atm],
+                  use_map=bool(atm % 2), surf_cols=pair)
     add_split(1, 3, 3, family='rect', shape=(3, 2, 3), atm=1, conv=3, order=None, angle=30.0, use_map=True, surf_cols=[0, 1, 4])
-    add_split(1, 3, 3, family='rect', shape=(3, 2, 3), atm=0, conv=0, order='dmplex', angle=0.0, use_map=False, surf_cols=[1, 2, 4])
     # (7) irregular, more freedom
     add_split(1, 1, 2, family='mix5', shape=2, atm=0, conv=0, order=None, angle=0.0, use_map=False, surf_cols=[0], mixmode='full')
     add_split(1, 1, 2, family='mix5', shape=2, atm=1, conv=3, order='layer_column', angle=30.0, use_map=True, surf_cols=[4], mixmode='full')
     add_split(1, 1, 2, family='triquad', shape=2, atm=2, conv=1, order='dmplex', angle=90.0, use_map=True, surf_cols=[3], mixmode='full')
     for pair, atm in (([0, 2], 0), ([3, 4], 1), ([1, 4], 2), ([2, 4], 1)):
         add_split(1, 2, 2, family='mix5', shape=2, atm=atm, conv=atm, order=None, angle=0.0, use_map=bool(atm), surf_cols=pair, mixmode='stretch')
-    add_split(1, 1, 3, family='mix5', shape=3, atm=1, conv=0, order=None, angle=30.0, use_map=False, surf_cols=[4, 2], mixmode='stretch')
+    add_split(1, 1, 3, family='mix5', shape=3, atm=1, conv=0, order=None, angle=30.0, use_map=False, surf_cols=[4], mixmode='stretch')
     add_split(1, 2, 2, family='triquad', shape=2, atm=1, conv=2, order='dmplex', angle=0.0, use_map=True, surf_cols=[1, 3], mixmode='stretch')
     for atm in ATMS:
         add(family='quadfam', shape=2, atm=atm, conv=atm + 1, order=ORDERS[atm], angle=ANGLES[atm], use_map=bool(atm % 2))
@@ -340,9 +352,9 @@ def run(tier, seed, rep):
         'arrangement relative to the layer boundaries (strictly inside a layer, exactly on a boundary, above the top) is a path',
         'configurations: all 216 = atmosphere {0,1,2} x convention {0..3} x block order {None,layer_column,dmplex} x '
         'permeability angle {0,30,90} x block map {none, concrete map renaming every other block} on RECT(2x1x2) with '
-        + ('the surface of column 0 free' if quick else 'both surfaces free'),
+        + ('the surface of column 0 free' if quick else 'both surfaces free (72 configurations with angle 0) or the surface of column 0 free (144)'),
         ('RECT(2x2x2) with 3 free surfaces (125 arrangements), 1 configuration' if quick else
-         'RECT(2x2x2) with all 4 surfaces free (625 arrangements) for 3 configurations (one per atmosphere type)'),
+         'RECT(2x2x2) with all 4 surfaces free (625 arrangements, atmosphere type 1) and with 3 free surfaces (125 arrangements, types 0 and 2)'),
         'RECT 2x1x2, 1x2x2 (all surfaces free, every atmosphere type), 1x1x2, 2x1x1, 1x1x1',
         'rotation by the real rotate() at angles with rational cosine/sine (3-4-5' + (', 5-12-13' if not quick else '') +
         ', 90 degrees) about a symbolic pivot, translation by a symbolic vector',
@@ -352,8 +364,8 @@ def run(tier, seed, rep):
         '; one free surface' + ('' if quick else ' or a pair of free surfaces'),
     ]
     if not quick:
-        rep.bounds += ['RECT(3x2x3): pairs of free surfaces [0,1], [1,4], [0,4], [2,5] (49 arrangements each) for every atmosphere type, '
-                       'triples [0,1,4] and [1,2,4] (343 arrangements); the other columns at the default surface']
+        rep.bounds += ['RECT(3x2x3): pairs of free surfaces [0,1] (atm 0), [1,4] and [2,5] (atm 1), [0,4] (atm 2) (49 arrangements each), '
+                       'the triple [0,1,4] (343 arrangements); the other columns at the default surface']
     rep.outside += [
         'tilted geometries (gdcx / gdcy non-zero): only the untilted gravity cosines are decided',
         'rotation at angles whose cosine/sine are irrational (cos/sin of symbolic or general angles are not encoded)',
@@ -380,6 +392,7 @@ def run(tier, seed, rep):
                     'harness/geo_sym.py FastCtx (per-path branch-decision cache, cross-path cache of identical UNSAT queries, '
                     'qfnra-nlsat front end with fall-back to the stock solver)']
     rep.extra['configurations'] = len(ATMS) * len(CONVS) * len(ORDERS) * len(ANGLES) * len(MAPS)
+    rep.extra['invalid_models_rechecked'] = sum(r.get('stats', {}).get('invalid_models', 0) for r in rep.results)
     rep.process_failures()
     return rep.finish(rule='one obligation = one (label, z3 formula) per column / block / connection on one path '
                            '(pc AND NOT formula must be unsat); structural list comparisons are concrete per path '
